@@ -134,6 +134,16 @@ def pipelineOp (j : Json) : R Json := do
   let res : List (List Rat × Nat) := evalSearchlight (fun ts f => ts.map f) id R
   pure (ofList (fun t => Json.arr #[ofNat t.2, ofList ofRat t.1]) res)
 
+/-- round 6: what the evaluation function receives at every call site of the source, for a given
+    `(method, theta)` and the defaults of its signature (all opaque JSON values) -/
+def evalKwOp (j : Json) : R Json := do
+  let a : EvalArgs Unit Json Json := ⟨(), fldD j "method" Json.null, fldD j "theta" Json.null⟩
+  let dm := fldD j "default_method" Json.null
+  let dt := fldD j "default_theta" Json.null
+  let got := (List.range nCallSites).map (fun k =>
+    callEval (fun (_ : Unit) (_ : Unit) m t => Json.arr #[m, t]) dm dt a k ())
+  pure (obj [("n_sites", ofNat nCallSites), ("received", Json.arr got.toArray)])
+
 /-- the split points of `n` centres: numpy's (sent as the positions where they lie one below
     `⌊i·n/100⌋`, or in full) checked for admissibility and compared with the model's own
     double-precision `linspacePts`; `full`: also the chunk partition itself -/
@@ -171,6 +181,7 @@ def handle : Handler := fun op j =>
   | "c19.eval" => some (evalOp j)
   | "c19.points" => some (pointsOp j)
   | "c19.pipeline" => some (pipelineOp j)
+  | "c19.evalkw" => some (evalKwOp j)
   | _ => none
 
 end Rsa.Drv.C19
